@@ -35,6 +35,7 @@ type c16Gen struct {
 	forceRT string   // when set, fn() generates a function of this result type
 	forcePT []string // when set, fn() generates a function of these parameter types
 	optPct  int      // when > 0: that share of the parameters is optional (type "o"+t: may be nil; only tested, never used as a value)
+	optRet  bool     // fn() generates a function whose returns may yield nil (result type "o"+t)
 }
 
 type c16Sym struct{ N, T string }
@@ -66,6 +67,20 @@ func (g *c16Gen) lit(t string) *c16Expr {
 // expr of type t over the visible variables.
 func (g *c16Gen) expr(vars []c16Sym, t string) *c16Expr {
 	r := g.r
+	if strings.HasPrefix(t, "o") { // a value that may be nil (c16NilReturns): nil, a lookup that may miss, the zero value, a value
+		switch w := r.Intn(100); {
+		case w < 30:
+			return c16NilExpr(r)
+		case w < 45 && t == "ostr":
+			if k, ok := g.pick(vars, "str"); ok {
+				return &c16Expr{T: "mapget", N: k}
+			}
+			return c16NilExpr(r)
+		case w < 55:
+			return c16Lit(c16Val{K: t[1:]}) // "" 0 false
+		}
+		return g.expr(vars, t[1:])
+	}
 	v, ok := g.pick(vars, t)
 	if !ok || r.Chance(25) {
 		if t == "bool" && r.Chance(50) {
@@ -209,6 +224,9 @@ func (g *c16Gen) fn(name string, size int) *c16Fn {
 	f := &c16Fn{Name: name, RT: Pick(r, []string{"int", "str", "str", "bool"})}
 	if g.forceRT != "" {
 		f.RT = g.forceRT
+	}
+	if g.optRet {
+		f.RT = "o" + f.RT
 	}
 	n := r.Intn(5)
 	if size == 0 {
@@ -421,6 +439,7 @@ func c16Build(p *c16Prog) (cs *c16Case, ok bool) {
 		}
 	}
 	cs = &c16Case{Shape: c16Label(p), Site: p.Site, Ctx: ctxVals}
+	opt := strings.HasPrefix(p.F.RT, "o") // the value of the call may be nil
 	C := call.Src()
 	site := ""
 	if p.Few > 0 {
@@ -435,7 +454,17 @@ func c16Build(p *c16Prog) (cs *c16Case, ok bool) {
 		before = pv.Render() + "|"
 	}
 	rv := m.eval(call, top)
-	cs.Marks = m.marks
+	cs.Marks, cs.rv = m.marks, rv
+	if opt && rv.K == "nil" && p.Blame == "" { // whatever else the case contains: the first return reached yields nil
+		cs.Shape = "nil-return-value-emitted"
+		if p.Site != "out" {
+			cs.Shape = "nil-return-value-used"
+		}
+	}
+	if rv.K == "nil" && (p.Site == "let" || p.Site == "arg-id") {
+		return nil, false // open: a variable that holds nil mentioned as a value
+	}
+	truth := func() string { return map[bool]string{true: "T", false: "F"}[c16Truth(rv)] } // (not a case when the reference has no truth value for rv)
 	if p.Rec == "loop" && m.retInLoop {
 		cs.Shape = "return-inside-loop-does-not-end-function"
 	}
@@ -445,6 +474,17 @@ func c16Build(p *c16Prog) (cs *c16Case, ok bool) {
 		site, cs.Want = "<%= "+C+" %>", rv.Render()
 	case "cond":
 		site, cs.Want = "<%= if ("+C+") { %>T<% } else { %>F<% } %>", map[bool]string{true: "T", false: "F"}[rv.B]
+		if opt {
+			cs.Want = truth()
+		}
+	case "ne-nil":
+		site, cs.Want = "<%= "+C+" != nil %>", strconv.FormatBool(rv.K != "nil")
+	case "or":
+		site, cs.Want = "<%= if ("+C+" || false) { %>T<% } else { %>F<% } %>", truth()
+	case "and-right":
+		site, cs.Want = "<%= if (true && "+C+") { %>T<% } else { %>F<% } %>", truth()
+	case "arg-truth":
+		site, cs.Want = "<% let tst = fn(v) {\n if (v) {\n  return \"T\"\n }\n return \"F\"\n} %><%= tst("+C+") %>", truth()
 	case "cmp":
 		site, cs.Want = "<%= "+C+" == "+p.Lit.Src()+" %>", eq
 	case "cmp-left":
@@ -460,6 +500,12 @@ func c16Build(p *c16Prog) (cs *c16Case, ok bool) {
 		cs.Want = map[bool]string{true: "eq", false: "ne"}[rv == p.Lit]
 	case "helper":
 		site, cs.Want = "<%= c16show("+C+") %>", rv.GoFmt()
+		if opt {
+			site, cs.Want = "<%= c16kind("+C+") %>", rv.GoFmt()
+			if rv.K == "nil" {
+				cs.Want = "nil"
+			}
+		}
 	case "concat":
 		if rv.K != "str" {
 			return nil, false
@@ -481,14 +527,14 @@ func c16Build(p *c16Prog) (cs *c16Case, ok bool) {
 		}
 		site, cs.Want = "<%= 1 + "+C+" %>", strconv.Itoa(rv.I+1)
 	case "not":
-		if rv.K != "bool" {
+		if rv.K != "bool" && !(opt && rv.K == "nil") {
 			return nil, false
 		}
 		site, cs.Want = "<%= !"+C+" %>", strconv.FormatBool(!rv.B)
 	default:
 		return nil, false
 	}
-	if p.Site == "cond" && rv.K != "bool" {
+	if p.Site == "cond" && rv.K != "bool" && !opt {
 		return nil, false
 	}
 	if loopVar != "" {
@@ -822,6 +868,13 @@ func c16Recursion(rep *Report) {
 		thru(nil, &c16Prog{F: &c16Fn{Name: "tri", Params: []string{"n", "a", "b"}, PT: []string{"int", "str", "str"}, RT: "str",
 			Body: []*c16Stmt{isZero(c16Bin("+", c16Var("a"), c16Var("b"))), c16Ret(c16Call("tri", dec, c16Var("b"), c16Call("tri", c16Int(0), c16Var("a"), c16Str("k"))))}}}),
 	)
+	// a local bound before the recursive call is read after it: every activation has a scope of its own
+	progs = append(progs,
+		one("loc", "int", "value-consumed", isZero(c16Int(0)), &c16Stmt{T: "let", N: "m", E: c16Bin("*", n, c16Int(2))},
+			&c16Stmt{T: "let", N: "r", E: c16Call("loc", dec)}, c16Ret(c16Bin("+", c16Var("r"), c16Var("m")))),
+		one("tag", "str", "value-consumed", isZero(c16Str("e")), &c16Stmt{T: "let", N: "m", E: c16Str("k")},
+			&c16Stmt{T: "set", N: "m", E: c16Bin("+", c16Var("m"), c16Str("q"))},
+			&c16Stmt{T: "let", N: "r", E: c16Call("tag", dec)}, c16Ret(c16Bin("+", c16Var("m"), c16Var("r")))))
 	for k, p := range progs { // every recursive body starts with a mark: it is the fuel (see c16mark)
 		for _, f := range append([]*c16Fn{p.F}, p.Extra...) {
 			f.Body = append([]*c16Stmt{{T: "mark", ID: 100 + k}}, f.Body...)
@@ -872,6 +925,10 @@ func c16Generate(cfg Config, rep *Report, r *Rng) {
 	c16NilArgs(cfg, rep, NewRng(cfg.Seed).Fork(1603))
 	c16Histories(cfg, rep, NewRng(cfg.Seed).Fork(1604))
 	c16ScopeHistories(cfg, rep, NewRng(cfg.Seed).Fork(1605))
+	c16NilRetRecursion(rep)
+	c16ArrayReturns(rep)
+	c16NilReturns(cfg, rep, NewRng(cfg.Seed).Fork(1606))
+	c16FreshScope(cfg, rep, NewRng(cfg.Seed).Fork(1607))
 	gn := &c16Gen{r: NewRng(cfg.Seed).Fork(1602)} // its own stream: the cases below this line are the same as before
 	g := &c16Gen{r: r}
 	nf := cfg.N(2500, 30000)
